@@ -1,8 +1,84 @@
-(** C06 (file level) — provisional until Ltx/Proofs.v lands *)
+(** C06 — Compaction never changes what is restored (file-level part; the
+    store-level invariant [levels_contiguous] lives in the Store layer). *)
 From Coq Require Import List NArith.
-From LS Require Import Ltx.File Ltx.Compact.
+From LS Require Import Base.PMap Ltx.File Ltx.Snapshot Ltx.Apply Ltx.Compact Ltx.SnapshotProofs Ltx.Proofs.
 Import ListNotations.
+Open Scope N_scope.
 
-Theorem compact_no_input : compact [] = Err E_NO_INPUT.
-Proof. reflexivity. Qed.
-Print Assumptions compact_no_input.
+(** for every base image and every well-formed, growth-closed list of inputs:
+    the compacted file applied to the base = the inputs applied in order (same
+    pages, same size); it carries the newest input's timestamp and commit and
+    the range first.min..last.max *)
+Theorem compact_equiv : forall first rest d c,
+  let fs := first :: rest in
+  let lock := lockPgno (f_ps first) in
+  Forall (wf_file lock) fs -> gc_chain lock (isz d) fs -> img_get d lock = zero_page ->
+  compact fs = Ok c ->
+  img_eq (apply d c) (apply_all d fs) /\
+  f_ts c = f_ts (last fs first) /\ f_commit c = f_commit (last fs first) /\
+  f_min c = f_min first /\ f_max c = f_max (last fs first) /\ f_ps c = f_ps first.
+Proof. exact Proofs.compact_equiv. Qed.
+Print Assumptions compact_equiv.
+
+(** the premise [wf_file] is what the real encoder guarantees of every file it wrote *)
+Theorem encoder_output_wf : forall f, encode_ok f = true -> wf_file (lockPgno (f_ps f)) f.
+Proof. exact Proofs.encode_ok_wf. Qed.
+Print Assumptions encoder_output_wf.
+
+(** under strict TXID contiguity the output range is exactly the union of the input ranges *)
+Theorem compact_covers_union : forall fs prevMax t,
+  fs <> [] -> txid_chain prevMax fs ->
+  (prevMax + 1 <= t <= fold_left (fun _ f => f_max f) fs prevMax <->
+   exists f, In f fs /\ f_min f <= t <= f_max f).
+Proof. exact Proofs.txid_chain_union. Qed.
+Print Assumptions compact_covers_union.
+
+Theorem compact_needs_growth_closed_refuted :
+  exists d first rest c,
+    let fs := first :: rest in
+    let lock := lockPgno (f_ps first) in
+    Forall (wf_file lock) fs /\ img_get d lock = zero_page /\
+    compact fs = Ok c /\ ~ img_eq (apply d c) (apply_all d fs).
+Proof. exact Proofs.compact_needs_growth_closed_refuted. Qed.
+Print Assumptions compact_needs_growth_closed_refuted.
+
+Theorem compact_assoc_partial : forall lock pieces cs c c' d,
+  Forall2 (compacts1 lock) pieces cs ->
+  Forall (wf_file lock) (concat pieces) -> gc_chain lock (isz d) (concat pieces) ->
+  img_get d lock = zero_page ->
+  compact cs = Ok c -> compact (concat pieces) = Ok c' ->
+  img_eq (apply d c) (apply d c') /\ f_commit c = f_commit c'.
+Proof. exact Proofs.compact_assoc_partial. Qed.
+Print Assumptions compact_assoc_partial.
+
+(** growth-closedness and well-formedness are preserved by compaction *)
+Theorem compaction_preserves_growth_closed : forall lock prev piece c,
+  compacts1 lock piece c -> Forall (wf_file lock) piece -> gc_chain lock prev piece ->
+  wf_file lock c /\ growth_closed lock prev c /\ f_commit c = final_commit prev piece /\
+  lockPgno (f_ps c) = lock.
+Proof. exact Proofs.compacts1_props. Qed.
+Print Assumptions compaction_preserves_growth_closed.
+
+Theorem plan_independent : forall lock l0s pieces1 cs1 pieces2 cs2 r1 r2,
+  concat pieces1 = l0s -> concat pieces2 = l0s ->
+  Forall2 (compacts1 lock) pieces1 cs1 -> Forall2 (compacts1 lock) pieces2 cs2 ->
+  Forall (wf_file lock) l0s -> gc_chain lock 0 l0s ->
+  restore cs1 = Ok r1 -> restore cs2 = Ok r2 ->
+  img_eq r1 r2.
+Proof. exact Proofs.plan_independent. Qed.
+Print Assumptions plan_independent.
+
+Theorem snapshot_equiv : forall first rest c r,
+  let fs := first :: rest in
+  let lock := lockPgno (f_ps first) in
+  Forall (wf_file lock) fs -> gc_chain lock 0 fs ->
+  compact fs = Ok c -> decode_db c = Ok r ->
+  img_eq r (apply_all img_empty fs).
+Proof. exact Proofs.snapshot_equiv. Qed.
+Print Assumptions snapshot_equiv.
+
+(** the model's fuel is always sufficient *)
+Theorem compact_never_out_of_fuel : forall fs,
+  Forall (fun f => sorted_gt 0 (f_pages f)) fs -> compact fs <> Err E_FUEL.
+Proof. exact Proofs.compact_fuel. Qed.
+Print Assumptions compact_never_out_of_fuel.
